@@ -383,6 +383,53 @@ pub fn run(c: &mut Ctx) {
         });
     }
 
+    // a proof made for amount X must not be accepted under another amount Y, in particular not at
+    // the encodings' boundaries (enc(i64::MIN) is a wire-only value next to enc(-(2^63-1)))
+    for (i, (cust, merch, x)) in [(0u64, MAXB, -(MAXB as i64)), (MAXB, 0u64, MAXB as i64), (1u64 << 61, 1u64 << 62, -(1i64 << 62)), (5u64, 5u64, 0i64)].into_iter().enumerate() {
+        let name = format!("cross-amount/{}", i);
+        c.case(&name, |c| {
+            let mut rng = c.rng(&name);
+            let started = Sess::open(m, &mut rng, cust, merch, b"c17x").and_then(|mut s| {
+                let r = s.c_start(&mut rng, amount(x)?, b"c17x")?;
+                r.map_err(|e| format!("{:?}", e))
+            });
+            let (nonce_b, proof_b) = match started {
+                Ok(v) => v,
+                Err(e) => return c.inconclusive(&e),
+            };
+            let mut others: Vec<i64> = vec![i64::MIN, i64::MIN + 1, i64::MAX, -(x.wrapping_add(0)), x.wrapping_add(1), x.wrapping_sub(1), 0, 1, -1];
+            others.push(x);
+            others.sort();
+            others.dedup();
+            for y in others {
+                let pa: PaymentAmount = match dec(&y.to_le_bytes()) {
+                    Ok(a) => a,
+                    Err(_) => continue,
+                };
+                c.eval();
+                c.distinct(&format!("cross-amount/{}/{}", x, y));
+                let nonce: Nonce = dec(&nonce_b).unwrap();
+                let proof: PayProof = dec(&proof_b).unwrap();
+                match guard(|| m.cfg.allow_payment(&mut rng, pa, &nonce, proof, &Context::new(b"c17x")).is_some()) {
+                    Err(p) => c.violation(
+                        &format!("C17 panic api=allow_payment wire-amount={} loc={}", class_i64(y), repo_rel(&p.location)),
+                        json!({"proof_made_for": x.to_string(), "verified_under": y.to_string(), "panic": p.message}),
+                    ),
+                    Ok(acc) => {
+                        if acc != (y == x) {
+                            c.violation(
+                                &format!("C17 scalar-encoding-inconsistent proof-for={} verified-under={}", class_i64(x), class_i64(y)),
+                                json!({"proof_made_for": x.to_string(), "verified_under": y.to_string(), "accepted": acc, "balances": [cust.to_string(), merch.to_string()]}),
+                            );
+                        } else {
+                            c.count("cross_amount_checks", 1);
+                        }
+                    }
+                }
+            }
+        });
+    }
+
     // full honest payments at boundary amounts: both sides' scalar encodings must agree
     let mut plans: Vec<(u64, u64, Vec<i64>)> = vec![
         (MAXB, 0, vec![MAXB as i64, -(MAXB as i64), 1, -1]),
